@@ -436,9 +436,9 @@ package tree
 //@   ensures outside_the_allowed_length_is_reported: called(RuneCountInString) && !inLength(lengths, callres(RuneCountInString, 0)) ==> ntrace() == n0 + 1
 //@   ensures a_restricted_leaf_with_a_value_is_looked_at: s.schema.GetField() != nil && len(lengths) > 0 && len(s.leafVariants.les) > 0 ==> called(Value)
 //@   ensures a_readable_value_is_measured: called(Value) && callres(Value, 0, 1) == nil ==> called(RuneCountInString)
-//@   loop 0 invariant schema != nil && schema.Type != nil && schema.Type.Length == lengths && lengthsOK(lengths)
-//@   loop 1 invariant schema != nil && schema.Type != nil && schema.Type.Length == lengths && lengthsOK(lengths)
-//@   loop 0 invariant ntrace() == n0 && actualLength == callres(RuneCountInString, 0) && forall(j, 0, $n, !(lengths[j].Min.Value <= actualLength && actualLength <= lengths[j].Max.Value))
+//@   loop 0 invariant s.schema.GetField() != nil && s.schema.GetField().Type != nil && s.schema.GetField().Type.Length == lengths && lengthsOK(lengths)
+//@   loop 1 invariant s.schema.GetField() != nil && s.schema.GetField().Type != nil && s.schema.GetField().Type.Length == lengths && lengthsOK(lengths)
+//@   loop 0 invariant ntrace() == n0 && forall(j, 0, $n, !(lengths[j].Min.Value <= callres(RuneCountInString, 0) && callres(RuneCountInString, 0) <= lengths[j].Max.Value))
 //@   loop 1 invariant ntrace() == n0
 
 // ---------------------------------------------------------------------------
